@@ -155,6 +155,23 @@ pub fn oracle(req: &Req, got: &Resp) -> Result<(), String> {
             if rou.mul(&rou) != Sc::ONE.neg() || rou.pow(&U256::from_u64(4)) != Sc::ONE { return Err("ROOT_OF_UNITY order".into()); }
             if rou.mul(&rou_inv) != Sc::ONE { return Err("ROOT_OF_UNITY * ROOT_OF_UNITY_INV != 1".into()); }
             if delta != g.pow(&U256::from_u64(1 << s_true)) { return Err("DELTA != g^(2^S)".into()); }
+            // g must GENERATE F_l^*: g^((l-1)/q) != 1 for every prime q | l-1 = 2^2 * 3 * 11 * P1 * P2 (the product is
+            // re-checked here; P1, P2 pass Miller-Rabin to 12 bases, computed once with Python integers). A g of
+            // smaller order passes all the relations above (seeded change C12g).
+            let p1 = U256::from_dec("198211423230930754013084525763697");
+            let p2 = U256::from_dec("276602624281642239937218680557139826668747");
+            let prod = p1.mul_wide(&p2).lo().mul_wide(&U256::from_u64(132));
+            if !prod.hi().is_zero() || prod.lo() != lm1 || !p1.mul_wide(&p2).hi().is_zero() { return Err("model: factorisation of l-1".into()); }
+            let div = |q: &U256| -> U256 {
+                // (l-1) / q by the known cofactors
+                let others: Vec<U256> = [U256::from_u64(2), U256::from_u64(3), U256::from_u64(11), p1, p2].iter().filter(|x| *x != q).cloned().collect();
+                let mut e = if *q == U256::from_u64(2) { U256::from_u64(2) } else { U256::from_u64(4) };
+                for o in others.iter().filter(|x| **x != U256::from_u64(2)) { e = e.mul_wide(o).lo(); }
+                e
+            };
+            for q in [U256::from_u64(2), U256::from_u64(3), U256::from_u64(11), p1, p2] {
+                if g.pow(&div(&q)) == Sc::ONE { return Err(format!("MULTIPLICATIVE_GENERATOR does not generate the multiplicative group: g^((l-1)/q) = 1 for the prime factor q = {:?}", q.to_le())); }
+            }
             if !zero.is_zero() || one != Sc::ONE { return Err("ZERO / ONE".into()); }
             if b[p + 32 * 7..p + 32 * 8] != sc::l().to_le()[..] { return Err("char_le_bits".into()); }
             Ok(())
